@@ -89,8 +89,20 @@ func (d *c20Dest) AddSequencedLeaves(_ context.Context, in *trillian.AddSequence
 // exactly the source's bytes at every index of [1, 4) and nothing else; in every case nothing
 // outside [1, 4) and no conflicting duplicate was submitted.
 //
-//verif:opt sched=1 race=1 preempt=1 thorough.preempt=2 maxpaths=400000 thorough.maxpaths=4000000 decisions=8000 steps=40000000 reach=migrated,aborted
+//verif:opt sched=1 race=1 preempt=1 thorough.preempt=1 maxpaths=400000 thorough.maxpaths=4000000 decisions=8000 steps=40000000 reach=migrated,aborted
 func Harness_C20_fetchTail() {
+	c20FetchTail(false)
+}
+
+// Harness_C20_fetchTailDeep: the same pass, restricted to the one-shot configuration over the
+// whole log with an unbuffered batch channel, under a delay bound of 2 (thorough tier only).
+//
+//verif:opt tier=thorough sched=1 race=1 preempt=2 maxpaths=4000000 decisions=8000 steps=40000000 wall=3000 reach=migrated,aborted
+func Harness_C20_fetchTailDeep() {
+	c20FetchTail(true)
+}
+
+func c20FetchTail(deep bool) {
 	c20ParseErr = nil
 	initMetrics(monitoring.InertMetricFactory{})
 	const destSize, srcSize = 1, 4
@@ -135,14 +147,18 @@ func Harness_C20_fetchTail() {
 	// range configuration: one-shot over the whole log; continuous mode (which ignores the configured
 	// range, here an end index below the tail); one-shot with an end index beyond the verified size
 	fo := scanner.FetcherOptions{BatchSize: 2, ParallelFetch: 2}
-	switch vChoice("range-config", 3) {
+	rc := 0
+	if !deep {
+		rc = vChoice("range-config", 3)
+	}
+	switch rc {
 	case 1:
 		fo.Continuous, fo.StartIndex, fo.EndIndex = true, 0, 2
 	case 2:
 		fo.EndIndex = 7
 	}
 	channel := 0
-	if !fo.Continuous && fo.EndIndex == 0 {
+	if !deep && !fo.Continuous && fo.EndIndex == 0 {
 		channel = vChoice("channel", 2)
 	}
 	c20ProofCalls, c20VerifyCalls, c20ProofErr, c20VerifyOK = 0, 0, nil, true
